@@ -74,6 +74,7 @@ func main() {
 	}
 	counts := map[string]int{}
 	var sites []siteInfo
+	var unmodelled []string
 	bad := false
 	for _, p := range pkgs {
 		if len(p.Errors) > 0 {
@@ -182,6 +183,12 @@ func main() {
 					if !ok {
 						return true
 					}
+					if id, ok := sel.X.(*ast.Ident); ok {
+						if pn, ok := p.TypesInfo.Uses[id].(*types.PkgName); ok && pn.Imported().Path() == "sync/atomic" {
+							unmodelled = append(unmodelled, rawSite(x.Pos())+" atomic."+sel.Sel.Name)
+							return true
+						}
+					}
 					rt := p.TypesInfo.TypeOf(sel.X)
 					if rt == nil {
 						return true
@@ -201,7 +208,7 @@ func main() {
 						counts["maprange"]++
 						sites = append(sites, siteInfo{s, "maprange", "", p.PkgPath, enclosingFunc(x)})
 					case (strings.HasSuffix(ts, "sync.RWMutex") || strings.HasSuffix(ts, "sync.Mutex")) &&
-						(sel.Sel.Name == "Lock" || sel.Sel.Name == "RLock"):
+						(sel.Sel.Name == "Lock" || sel.Sel.Name == "RLock" || sel.Sel.Name == "Unlock" || sel.Sel.Name == "RUnlock"):
 						amp := "&"
 						if _, isPtr := rt.(*types.Pointer); isPtr {
 							amp = ""
@@ -210,15 +217,28 @@ func main() {
 						add(x.Pos(), 0, "simrt."+sel.Sel.Name+"("+q(s)+", "+amp)
 						add(sel.X.End(), int(x.End()-sel.X.End()), ")")
 						counts["lock"]++
-						sites = append(sites, siteInfo{s, "lock", ts, p.PkgPath, enclosingFunc(x)})
-					case (strings.HasSuffix(ts, "sync.RWMutex") || strings.HasSuffix(ts, "sync.Mutex")) &&
-						(sel.Sel.Name == "Unlock" || sel.Sel.Name == "RUnlock") && *doYield:
-						// yield right after an explicit (non-deferred) unlock statement
-						if es, ok := parents[x].(*ast.ExprStmt); ok && inStmtList(es) {
-							s := site("unlock", x.Pos())
-							add(es.End(), 0, ";simrt.Yield("+q(s)+")")
-							counts["yield-unlock"]++
+						sites = append(sites, siteInfo{s, "lock", ts + "." + sel.Sel.Name, p.PkgPath, enclosingFunc(x)})
+					default:
+						// synchronisation the lock shims do not model
+						if strings.Contains(ts, "sync.Once") || strings.Contains(ts, "sync.Map") || strings.Contains(ts, "sync.WaitGroup") ||
+							strings.Contains(ts, "sync.Cond") || strings.Contains(ts, "sync.Pool") || strings.Contains(ts, "sync/atomic.") || strings.Contains(ts, "atomic.") {
+							unmodelled = append(unmodelled, rawSite(x.Pos())+" "+ts+"."+sel.Sel.Name)
 						}
+						if id, ok := sel.X.(*ast.Ident); ok {
+							if pn, ok := p.TypesInfo.Uses[id].(*types.PkgName); ok && pn.Imported().Path() == "sync/atomic" {
+								unmodelled = append(unmodelled, rawSite(x.Pos())+" atomic."+sel.Sel.Name)
+							}
+						}
+					}
+				case *ast.GoStmt:
+					unmodelled = append(unmodelled, rawSite(x.Pos())+" go statement")
+				case *ast.SendStmt:
+					unmodelled = append(unmodelled, rawSite(x.Pos())+" channel send")
+				case *ast.SelectStmt:
+					unmodelled = append(unmodelled, rawSite(x.Pos())+" select")
+				case *ast.UnaryExpr:
+					if x.Op == token.ARROW {
+						unmodelled = append(unmodelled, rawSite(x.Pos())+" channel receive")
 					}
 				case *ast.FuncDecl:
 					if x.Body == nil {
@@ -271,7 +291,8 @@ func main() {
 		os.Exit(2)
 	}
 	if *sitesOut != "" {
-		b, _ := json.MarshalIndent(map[string]any{"counts": counts, "sites": sites}, "", " ")
+		sort.Strings(unmodelled)
+		b, _ := json.MarshalIndent(map[string]any{"counts": counts, "sites": sites, "unmodelled_sync": unmodelled}, "", " ")
 		if err := os.WriteFile(*sitesOut, b, 0644); err != nil {
 			fatal(err)
 		}
